@@ -39,6 +39,27 @@ def build(seed: int, pid: str, ncfg: int) -> Tuple[Dict[str, Any], List[Dict[str
     geo = P.gen_assembly(rs.sub("geo"), opts)
     geo = P.add_curved(rs.sub("curved"), geo, opts)
     geo = P.place_chops(rs.sub("chops"), geo, opts)
+    if pid == "C02" and rs.chance(0.2):
+        # patches and merged pairs: vertices on a slave patch are duplicated, which cuts edge families
+        # at the merged interface (the reference model takes that into account)
+        pr = rs.sub("patches")
+        names_ = ["ifa", "ifb", "walls"]
+        pats = {}
+        for b in geo["blocks"]:
+            for sd in hexref.SIDES:
+                if pr.chance(0.2):
+                    pats[(b["name"], sd)] = pr.pick(names_)
+        # real interfaces: the two sides of a face shared by two blocks
+        blocks_ = geo["blocks"]
+        for i_ in range(len(blocks_)):
+            for j_ in range(i_ + 1, len(blocks_)):
+                common = set(blocks_[i_]["corners"]) & set(blocks_[j_]["corners"])
+                if len(common) == 4 and pr.chance(0.5):
+                    for b, nm_ in ((blocks_[i_], "ifa"), (blocks_[j_], "ifb")):
+                        sd = [x for x in hexref.SIDES if {b["corners"][c] for c in hexref.SIDE_CORNERS[x]} == common][0]
+                        pats[(b["name"], sd)] = nm_
+        geo["patches"] = [(bn, sd, nm_) for (bn, sd), nm_ in sorted(pats.items())]
+        geo["merges"] = [pr.pick([("ifa", "ifb"), ("ifb", "ifa"), ("walls", "ifa")])]
     if rs.chance(opts.get("p_rewrite", 0.3)):
         # the same assembled mesh is written a second time: as it is (C02: same file again), or after
         # 1-3 vertex moves (C01: still consistent; C04: sizes realised on the new lengths)
@@ -49,6 +70,7 @@ def build(seed: int, pid: str, ncfg: int) -> Tuple[Dict[str, Any], List[Dict[str
         if pid == "C04" and moves:
             geo["curved"] = {}  # moved end points of declared arcs / polylines would change the curves themselves
         geo["rewrite"] = moves
+        geo["rewrite_back"] = bool(moves) and mr.chance(0.5)
     programs = [P.make_program(geo, h64(seed, "cfg", c) % (1 << 31), identity=(c == 0)) for c in range(ncfg)]
     return geo, programs
 
@@ -120,6 +142,24 @@ def evaluate(pid: str, program: Dict[str, Any], scheds: List[Dict[str, Any]], pr
                     stats["second_writes_sized"] = stats.get("second_writes_sized", 0) + 1
             except Exception as e:
                 vs.append(P.Violation("C04", "second-write-unparsable", repr(e)))
+        if len(res.writes) >= 3 and res.writes[2][0] is not None:
+            # third write, vertices back in place: the file of the first write again
+            stats["third_writes_checked"] = stats.get("third_writes_checked", 0) + 1
+            try:
+                from .. import foam as _foam
+                parsed3 = _foam.parse_blockmeshdict(res.writes[2][0])
+                res3 = P.RunResult()
+                res3.outcome, res3.live = "ok", res.writes[2][1]
+                v3 = P.oracle_counts(program, asm, names, verdict, res3, parsed3)
+                for v in v3:
+                    v.detail = "third write (vertices moved and put back): " + v.detail
+                    v.key = v.key + ":third-write"
+                vs += v3
+                if not v3 and res.writes[2][0] != res.writes[0][0]:
+                    vs.append(P.Violation("C02", "third-write-differs", "vertices moved and put back exactly: the file differs from the first one: "
+                                          + _first_diff(res.writes[0][0], res.writes[2][0])))
+            except Exception as e:
+                vs.append(P.Violation("C01", "third-write-unparsable", repr(e)))
         if second is not None and second[0] is not None:
             stats["second_writes_checked"] = stats.get("second_writes_checked", 0) + 1
             try:
